@@ -31,6 +31,7 @@ type Op struct {
 
 type Thread struct {
 	spin    int  // consecutive operations of this thread that wrote nothing
+	idleWakes int // times it was woken from a sleep / a ticker wait while nothing else could run (see idleRounds)
 	yielded bool // it offered its turn and nobody else has made a step since: not offered to the explorer
 	ID      int
 	Name    string
@@ -71,6 +72,7 @@ var abortSentinel = abortT{}
 // Sched is one execution.
 type Sched struct {
 	sends []sendCount // completed sends per channel (see SendsDone)
+	timeChans []unsafe.Pointer // see MarkTimeChan
 	noted []unsafe.Pointer // objects created by rewritten code, in creation order (see NoteObj)
 	threads         []*Thread
 	cur             *Thread
@@ -446,6 +448,26 @@ func (s *Sched) switchFrom(t *Thread) {
 			}
 		}
 	}
+	// goroutines of the code under test that only wait for time to pass (a janitor that sleeps between
+	// rounds or lives on a ticker) never let an execution become quiescent. When nothing else can run they
+	// are woken at most idleRounds times each; after that they count as idle for good (see quiescent).
+	busy := false
+	for _, x := range enabled {
+		if !s.idleForever(x) {
+			busy = true
+		}
+	}
+	if !busy && len(enabled) > 0 {
+		k := 0
+		for _, x := range enabled {
+			if x.idleWakes < idleRounds {
+				enabled[k] = x
+				k++
+			}
+		}
+		enabled = enabled[:k]
+		runEnabled = runEnabled && k > 0 && enabled[0] == t
+	}
 	ordinary := len(enabled)
 	for _, x := range s.threads {
 		if x != t && x.daemon && s.isReady(x) {
@@ -453,13 +475,7 @@ func (s *Sched) switchFrom(t *Thread) {
 		}
 	}
 	if len(enabled) == 0 {
-		s.Deadlock = true
-		for _, x := range s.threads {
-			if !x.done && !x.daemon && x.pend != nil {
-				s.Blocked = append(s.Blocked, fmt.Sprintf("T%d(%s) blocked at %s", x.ID, x.Name, x.pend.Kind))
-			}
-		}
-		s.finish()
+		s.quiescent()
 		if t.done {
 			return
 		}
@@ -486,6 +502,9 @@ func (s *Sched) switchFrom(t *Thread) {
 		}
 		n = enabled[s.chooseC(len(enabled), runEnabled, false, fc)]
 	}
+	if !busy && n.Name == "go" {
+		n.idleWakes++
+	}
 	if n == t {
 		return
 	}
@@ -498,6 +517,23 @@ func (s *Sched) switchFrom(t *Thread) {
 	if s.aborting {
 		panic(abortSentinel)
 	}
+}
+
+const idleRounds = 100
+
+// quiescent ends the execution because nothing can run any more: a deadlock if some thread is left
+// blocked - goroutines of the code under test that only wait for time (idleForever: asleep, or waiting
+// for a ticker) are not blocked, they are idle.
+//
+//go:norace
+func (s *Sched) quiescent() {
+	for _, x := range s.threads {
+		if !x.done && !x.daemon && x.pend != nil && !s.idleForever(x) {
+			s.Blocked = append(s.Blocked, fmt.Sprintf("T%d(%s) blocked at %s", x.ID, x.Name, x.pend.Kind))
+		}
+	}
+	s.Deadlock = len(s.Blocked) > 0
+	s.finish()
 }
 
 // Point parks the running thread at a visible operation and returns when the
@@ -660,6 +696,76 @@ func Gosched() {
 	PointOp(&Op{Kind: "runtime.Gosched", yield: true})
 }
 
+// Observed mixes a value the running thread has just read from state outside the model (the model
+// clock) into its history, so that the state cache tells threads that saw different values apart.
+//
+//go:norace
+func Observed(v uint64) {
+	if s := cur; s != nil && s.cur != nil {
+		s.cur.hash = mix(s.cur.hash, v+0x0b5e)
+	}
+}
+
+// HarnessDone reports whether every thread the scenario spawned itself has finished (what is left was
+// started by the code under test with `go`, or is an environment thread).
+//
+//go:norace
+func HarnessDone() bool {
+	s := cur
+	if s == nil {
+		return true
+	}
+	return s.harnessDone()
+}
+
+//go:norace
+func (s *Sched) harnessDone() bool {
+	for _, x := range s.threads {
+		if !x.done && !x.daemon && x.Name != "go" {
+			return false
+		}
+	}
+	return true
+}
+
+// MarkTimeChan registers a channel that only time feeds (a ticker's): a goroutine of the code under
+// test that is left waiting on it when everything else has finished is a janitor, not a deadlock.
+//
+//go:norace
+func MarkTimeChan(p unsafe.Pointer) {
+	if s := cur; s != nil {
+		s.timeChans = pushPtr(s.timeChans, p)
+	}
+}
+
+// idleForever: a goroutine started by the code under test that only waits for time to pass (it sleeps,
+// or waits for a ticker).
+//
+//go:norace
+func (s *Sched) idleForever(x *Thread) bool {
+	if x.Name != "go" || x.pend == nil {
+		return false
+	}
+	if x.pend.Kind == "time.Sleep" {
+		return true
+	}
+	if x.pend.ch == nil || x.pend.ch.hasDefault || len(x.pend.ch.cases) == 0 {
+		return false
+	}
+	for _, c := range x.pend.ch.cases {
+		isTime := false
+		for _, p := range s.timeChans {
+			if p == c.ptr && !c.send {
+				isTime = true
+			}
+		}
+		if !isTime {
+			return false
+		}
+	}
+	return true
+}
+
 // SleepPoint is the model of time.Sleep: like Gosched it offers the turn to everybody else (a loop
 // that sleeps between attempts is a polite waiting loop).
 //
@@ -681,7 +787,7 @@ func OrdinaryEnabled() bool {
 		return true
 	}
 	for _, x := range s.threads {
-		if !x.daemon && !x.done && s.isReady(x) {
+		if !x.daemon && !x.done && s.isReady(x) && !(s.idleForever(x) && x.idleWakes >= idleRounds) {
 			return true
 		}
 	}
